@@ -21,7 +21,7 @@ SPEC_BUILTINS = ('forall', 'exists', 'implies', 'iff', 'old', 'at', 'ite', 'fora
                  'set_eq', 'set_minus', 'set_union', 'set_add', 'set_del', 'empty_set',
                  'disjoint', 'has_key', 'keys_eq', 'seq_eq', 'let', 'setof', 'dq_lo', 'dq_hi', 'dq_at',
                  'bi8', 'bu8', 'bi16', 'bu16', 'bu24', 'bi32', 'bu32', 'bi64', 'bcat', 'braw', 'bempty', 'blen', 'beq',
-                 'written', 'content', 'utf8', 'bmark', 'since', 'sum_of', 'crc_of', 'summands', 'stream_front', 'bslice', 'split_part', 'split_count', 'str_to_int')
+                 'written', 'content', 'utf8', 'bmark', 'since', 'sum_of', 'crc_of', 'summands', 'stream_front', 'bslice', 'split_part', 'split_count', 'str_to_int', 'dyn_attr')
 
 
 class Ctx(object):
